@@ -522,7 +522,7 @@ pub const PROP: Prop = Prop {
     id: "C02",
     level: "exploration",
     runs_quick: 20_000,
-    runs_thorough: 1_500_000,
+    runs_thorough: 200_000,
     generate,
     execute,
     shrink,
